@@ -34,6 +34,18 @@ CLAIMED = {
          "ASCII for \\w / re.I / lower(); str() of option values, os.environ, sys.path and working_dir are parameters; "
          "wid uniqueness is proved for histories of spawn/death/numprocesses changes over _nextwid, not yet over the "
          "full watcher coroutine state machine; Watcher ignores the configured executable (observed, outside the property text)."),
+ "C01": ('Lean 4: generic invariant preservation over the whole coroutine interpreter (per-writer lemmas + aesop-discharged composition), instantiated for the numprocesses bounds; separate theorems for oldest-first removal and for the converged state being a fixpoint of manage_processes; differential correspondence of the core model with the real code on a simulated kernel',
+         'C01_bounds (every reachable state, any op list), C01_oldest_first, C01_sort_perm, C01_fixpoint are proved; convergence after a calm check and freshness after restart/reload are not theorems (finite liveness over several timer steps): they are checked on the implementation by the oracle on every run, and every step of every generated scenario is diffed against the model (kernel calls, events, replies, snapshots).',
+         'DESIGN.md 5 (C01)', 'the core state machine (Arbiter/Watcher/Process/Controller/commands as tornado coroutines over a simulated kernel) is modelled in lean/CircusModel/Core; real kernel scheduling, zmq, on_demand sockets, stream redirection and regex matching are outside it; liveness is proved only in finite form.'),
+ "C15": ('Lean 4: directory invariant DirInv proved for every reachable state by generic preservation over the coroutine interpreter; lookup / rm / add theorems; differential correspondence of the core model with the real code',
+         'C15_dir_inv (list and lower-cased dict describe the same watcher objects, no duplicates, in every reachable state), C15_unique_ignoring_case, C15_list_numwatchers_agree, C15_case_insensitive_lookup, C15_rm_gone, C15_rm_name_reusable, C15_add_ok_exists, C15_add_refused_noop.',
+         'DESIGN.md 5 (C15)', 'the core state machine (Arbiter/Watcher/Process/Controller/commands as tornado coroutines over a simulated kernel) is modelled in lean/CircusModel/Core; real kernel scheduling, zmq, on_demand sockets, stream redirection and regex matching are outside it; liveness is proved only in finite form. Names over ASCII + Latin-1 (pyLower).'),
+ "C16": ('Lean 4 theorems about a model of get_config (ini reader, typing loop, env layering, env:PATTERN pass with fnmatch, expansion) + differential correspondence with the real get_config on generated ini files',
+         'C16_option_typing, C16_env_precedence, C16_comma_and_wildcards, C16_expansion(+lookup, collision, env, late_options), C16_conversions, C16_deterministic (rfl in the model; for the code only the correspondence) and reader theorems; four genuine deviations from the documentation are listed as known findings (C16-F1..F4) with counter-example theorems.',
+         'DESIGN.md 5 (C16)', 'ASCII texts; [circus] options, include, [DEFAULT] not modelled; to_signum is a parameter.'),
+ "C17": ('Lean 4 theorems (invariants by induction over op lists) about a model of the Redirector over a pipe kernel with lowest-free fd reuse + differential correspondence with the real Redirector/Process on real pipes',
+         'C17_stream_refinement, C17_accounting, C17_handlers_labelled, C17_no_spin, C17_no_leak(_bounded) proved for all op lists; completeness holds only under NoLossAtClose (C17_complete_partial) — the real code drops bytes still queued when Process.stop() closes the pipe (known finding F17, counter-example theorem).',
+         'DESIGN.md 5 (C17)', 'epoll readiness, pipe capacity and several Redirectors sharing a loop are not modelled.'),
 }
 NOT_YET = "not decided by the machinery in this revision (model layer not built yet); not claimed"
 NOT_APPLICABLE = {}
